@@ -16,6 +16,7 @@ package casbin
 
 import (
 	"fmt"
+	"strings"
 
 	Err "github.com/casbin/casbin/v2/errors"
 	"github.com/casbin/casbin/v2/model"
@@ -145,6 +146,10 @@ func (e *Enforcer) updatePolicyWithoutNotify(sec string, ptype string, oldRule [
 		return true, e.dispatcher.UpdatePolicy(sec, ptype, oldRule, newRule)
 	}
 
+	if ok, err := e.updatable(sec, ptype, [][]string{oldRule}, [][]string{newRule}); !ok || err != nil {
+		return false, err
+	}
+
 	if e.shouldPersist() {
 		if err := e.adapter.(persist.UpdatableAdapter).UpdatePolicy(sec, ptype, oldRule, newRule); err != nil {
 			if err.Error() != notImplemented {
@@ -180,6 +185,10 @@ func (e *Enforcer) updatePoliciesWithoutNotify(sec string, ptype string, oldRule
 		return true, e.dispatcher.UpdatePolicies(sec, ptype, oldRules, newRules)
 	}
 
+	if ok, err := e.updatable(sec, ptype, oldRules, newRules); !ok || err != nil {
+		return false, err
+	}
+
 	if e.shouldPersist() {
 		if err := e.adapter.(persist.UpdatableAdapter).UpdatePolicies(sec, ptype, oldRules, newRules); err != nil {
 			if err.Error() != notImplemented {
@@ -205,6 +214,39 @@ func (e *Enforcer) updatePoliciesWithoutNotify(sec string, ptype string, oldRule
 	}
 
 	return ruleUpdated, nil
+}
+
+// updatable reports whether replacing oldRules by newRules, pair by pair, can be carried out and
+// keeps the policy free of duplicates: every old rule is listed and named once, and a new rule
+// that differs from the rule it replaces is neither listed already nor named twice. It is asked
+// before the adapter is touched, so that storage and memory cannot drift apart on a refused update.
+func (e *Enforcer) updatable(sec string, ptype string, oldRules [][]string, newRules [][]string) (bool, error) {
+	seenOld := make(map[string]struct{}, len(oldRules))
+	seenNew := make(map[string]struct{}, len(newRules))
+	for i, oldRule := range oldRules {
+		listed, err := e.model.HasPolicy(sec, ptype, oldRule)
+		if !listed || err != nil {
+			return false, err
+		}
+		oldKey := strings.Join(oldRule, model.DefaultSep)
+		if _, twice := seenOld[oldKey]; twice {
+			return false, nil
+		}
+		seenOld[oldKey] = struct{}{}
+
+		newKey := strings.Join(newRules[i], model.DefaultSep)
+		if newKey == oldKey {
+			continue
+		}
+		if listed, err = e.model.HasPolicy(sec, ptype, newRules[i]); listed || err != nil {
+			return false, err
+		}
+		if _, twice := seenNew[newKey]; twice {
+			return false, nil
+		}
+		seenNew[newKey] = struct{}{}
+	}
+	return true, nil
 }
 
 // removePolicies removes rules from the current policy.
